@@ -430,7 +430,7 @@ def virtual_part(R):
                 REPLY_OVERRIDE[0] = None
     # history: N calls whose socket cannot even be created (OS error), then a normal
     # exchange in the same process / on the same loop must still work
-    for n_fail in (1, 5, 63, 64, 70, 130):
+    for n_fail in (1, 5, 63, 64, 70, 130, 255, 256, 513, 800, 801, 1030, 2100):
         k += 1
         if not R.mine(k):
             continue
